@@ -176,3 +176,10 @@ Print Assumptions tf_methods_tie.
 Theorem tf_static_tie : tf_static = lit_tf_static.
 Proof. exact C10_GenTie.tf_static_tie. Qed.
 Print Assumptions tf_static_tie.
+
+(* ---------- class structure of the current source: overrides and attribute hooks (proofs/ClassesTie.v) ---------- *)
+Require Import ClassesTie.
+Theorem C10_tie_class_attr_hooks : Gen_Classes.attr_hooks = exp_attr_hooks.
+Proof. exact attr_hooks_tie. Qed.
+Print Assumptions C10_tie_class_attr_hooks.
+
